@@ -108,8 +108,9 @@ def replay_obj_for(prop, trace, eid, group, checks):
             "ops": ops, "observed": {k: chain[-1].get(k) for k in ("res", "post", "panic") if k in chain[-1]}}
 
 
-def judge(prop, verdict, traces, results):
+def judge(prop, verdict, traces, results, robj_fn=None):
     """Applies the monitor output to the verdict; returns per-group counts of failures."""
+    robj_fn = robj_fn or replay_obj_for
     fails = {}
     for trace, res in zip(traces, results):
         ncs = [x for x in parse_nonconf(res["out"]) if x[1] in GROUPS[prop]]
@@ -122,9 +123,61 @@ def judge(prop, verdict, traces, results):
                 ev = evs[eid]
                 small = {k: ev.get(k) for k in ("op", "res", "post", "uniform", "panic")}
                 what = "%s/%s on %s after op %s" % (group, c, (ev.get("post") or {}).get("specs"), json.dumps(ev["op"])[:200])
-                robj = replay_obj_for(prop, trace, eid, group, [c]) if verdict.wants_replay(group, c, small) else {}
+                robj = robj_fn(prop, trace, eid, group, [c]) if verdict.wants_replay(group, c, small) else {}
                 verdict.nonconf(group, c, small, what, robj)
     return fails
+
+
+def repo_replay_obj(prop, trace, eid, group, checks):
+    """A recorded call of the repository's tests as a history the harness can re-execute: the graph before the
+    call rebuilt from its nodes and stored edges, then the call."""
+    chain = path_to(trace, eid)
+    root, last = chain[0], chain[-1]
+    ops = [{"k": "add_nodes", "ns": root["post"]["nodes"], "es": []}, {"k": "add_edges", "ns": [], "es": root["post"]["edges"]}]
+    ops += [e["op"] for e in chain[1:]]
+    return {"property": prop, "kind": "mut", "group": group, "failed_checks": checks, "specs": root["post"]["specs"],
+            "ops": [o for o in ops if o["ns"] or o["es"]], "source": "call recorded from the repository's own test suite",
+            "observed": {k: last.get(k) for k in ("op", "res", "post", "snap")}}
+
+
+def repo_tests_step(prop, work, verdict, shards=8):
+    """Direction 1 with the repository's own tests as the driver: the suite is run with the mutation hook on and
+    every recorded add_node / add_edge call (with all private indexes before and after) is validated by MonitorMut."""
+    import rtrace
+    t = time.time()
+    records, info = rtrace.record(work.dir, os.path.join(ROOT, "harness", "target-rt"), log)
+    events = rtrace.to_events(records)
+    if not events:
+        raise ToolError("the repository's test suite produced no mutation records (hook not compiled in?)")
+    # shard by root so that every event's parent is in its own file
+    root_of, groups = {}, {}
+    for e in events:
+        root_of[e["id"]] = e["id"] if e["parent"] == 0 else root_of[e["parent"]]
+        groups.setdefault(root_of[e["id"]], []).append(e)
+    bins = [[] for _ in range(shards)]
+    for i, (_, evs) in enumerate(sorted(groups.items(), key=lambda kv: -len(kv[1]))):
+        min(bins, key=len).extend(evs)
+    traces = []
+    for i, b in enumerate(x for x in bins if x):
+        renum = {0: 0}
+        for j, e in enumerate(b, 1):
+            renum[e["id"]] = j
+        path = work.path("repotests%02d.ndjson" % i)
+        with open(path, "w") as f:
+            for e in b:
+                f.write(json.dumps(dict(e, id=renum[e["id"]], parent=renum[e["parent"]])) + "\n")
+        traces.append(path)
+    results, distinct, generated = monitor_shards("MonitorMut", traces, work.dir)
+    fails = judge(prop, verdict, traces, results, robj_fn=repo_replay_obj)
+    kinds = {}
+    for e in events:
+        kinds[e["op"]["k"]] = kinds.get(e["op"]["k"], 0) + 1
+    info.update({"distinct_records": sum(v for k, v in kinds.items() if k != "state"), "events_monitored": len(events), "event_kinds": kinds,
+                 "monitor_states": distinct, "failed_checks": {"%s/%s" % k: v for k, v in fails.items()},
+                 "specs_seen": len({json.dumps(e["post"]["specs"], sort_keys=True) for e in events})})
+    log("repository-test traces: %d distinct records, %d events monitored in %.0fs, failures %s"
+        % (info["distinct_records"], len(events), time.time() - t, info["failed_checks"]))
+    return info, distinct, generated
 
 
 def walks_direction2(gv, work, n, verdict, prop):
@@ -170,6 +223,9 @@ def run_c01(tier, replay=None):
         results, distinct, generated = monitor_shards("MonitorMut", traces, work.dir)
         fails = judge(prop, verdict, traces, results)
         winfo, wres, wsample = walks_direction2(gv, work, plan["walks"], verdict, prop)
+        rinfo, rdistinct, rgenerated = repo_tests_step(prop, work, verdict)
+        distinct += rdistinct
+        generated += rgenerated
         # value semantics of Edge / Node (ordered, reversed, Eq / Ord / Hash) over a small universe
         run_gv(gv, ["values", "--out", work.path("values.ndjson")])
         vres, vdistinct, vgen = monitor_shards("ValueTypes", [work.path("values.ndjson")], work.dir)
@@ -195,6 +251,7 @@ def run_c01(tier, replay=None):
             "direction1": {"events_monitored": nev, "event_kinds": counts, "monitor_states": distinct, "plan": plan,
                            "failed_checks": {"%s/%s" % k: v for k, v in fails.items()}},
             "direction2": winfo,
+            "repository_test_suite_traces": rinfo,
             "value_semantics": {"module": "ValueTypes", "edge_pairs": 36 * 36, "node_pairs": 36, "laws_checked_by_tlc": 4},
             "explanation": "TLC explores the abstract mutation machine for all 96 GraphSpecs; the harness records forests of real "
                            "calls (exhaustive to the stated depth, plus random histories incl. batch forms and new_from_nodes_and_edges) "
@@ -253,13 +310,18 @@ def run_family(prop, tier, replay=None):
         results, distinct, generated = monitor_shards("MonitorMut", traces, work.dir)
         fails = judge(prop, verdict, traces, results)
         extra = {}
+        if prop in ("C02", "C03"):
+            rinfo, rdistinct, rgenerated = repo_tests_step(prop, work, verdict)
+            distinct += rdistinct
+            generated += rgenerated
+            extra["repository_test_suite_traces"] = rinfo
         if prop == "C03":
             import checks_algo
             info = checks_algo.run_cases(prop, gv, work, verdict, suite="weighted", grid=0, groups=GROUPS[prop],
                                          gen=[("dups", plan["dups"], 2, 5, 0)], families=[], nshards=NCPU)
             distinct += info["states"]
             generated += info["transitions"]
-            extra = {"algorithm_level": info}
+            extra["algorithm_level"] = info
         samples = []
         with open(traces[0]) as f:
             for i, line in enumerate(f):
